@@ -6,7 +6,7 @@
 (* the protocol model TaskLane.tla:                                        *)
 (*   AtMostOnce, NoRejectedRun, StartedOnlyIfPushed          (C06)         *)
 (*   PostCancelReject, WaitOnlyWhenQuiet, NothingAfterWait   (C07)         *)
-(*   AtMostNRunning                                          (C08)         *)
+(*   AtMostNRunning, NoTimeoutWhileIdle (long-timeout scenarios)  (C08)    *)
 (*   StatusBounds, LastPanicIsOne                            (C14)         *)
 (* and, at stably quiescent states (liveness judged where no step of the   *)
 (* lane is possible any more):                                             *)
@@ -28,7 +28,7 @@ Next == UNCHANGED i
 
 S0 == [begun |-> {}, acc |-> {}, rej |-> {}, late |-> {}, started |-> {}, open |-> {},
        cb |-> FALSE, ce |-> FALSE, wb |-> FALSE, we |-> FALSE,
-       raised |-> {}, rec |-> FALSE, sflag |-> {}]
+       raised |-> {}, rec |-> FALSE, sflag |-> {}, inprog |-> {}, sawfull |-> {}]
 
 Bad(k, rule) == <<k, rule>>
 
@@ -37,22 +37,26 @@ Fold(c, k, s) ==
   IF k > Len(c.evs) THEN <<0, "">>
   ELSE LET e == c.evs[k] IN
   CASE e.e = "push.begin" ->
-         Fold(c, k + 1, [s EXCEPT !.begun = @ \cup {e.t}, !.late = IF s.ce THEN @ \cup {e.t} ELSE @])
+         Fold(c, k + 1, [s EXCEPT !.begun = @ \cup {e.t}, !.late = IF s.ce THEN @ \cup {e.t} ELSE @, !.inprog = @ \cup {e.t},
+                                 !.sawfull = IF Cardinality(s.open) >= c.n \/ s.cb THEN @ \cup {e.t} ELSE @])
     [] e.e = "push.end" ->
          IF On({"C06"}) /\ (e.res \notin {"nil", "timeout", "ctx"}) THEN Bad(k, "C06: PushTask returned an error that is neither timeout nor the context error")
          ELSE IF On({"C07"}) /\ (e.t \in s.late /\ e.res # "ctx") THEN Bad(k, "C07: a PushTask call that began after the cancellation returned " \o e.res)
          ELSE IF On({"C06"}) /\ (e.res # "nil" /\ e.t \in s.started) THEN Bad(k, "C06: a task whose PushTask returned an error was started")
-         ELSE Fold(c, k + 1, IF e.res = "nil" THEN [s EXCEPT !.acc = @ \cup {e.t}] ELSE [s EXCEPT !.rej = @ \cup {e.t}])
+         ELSE IF On({"C08"}) /\ (c.longto /\ e.res = "timeout" /\ e.t \notin s.sawfull)
+              THEN Bad(k, "C08: PushTask timed out (2 s) although a worker was idle during the whole call")
+         ELSE Fold(c, k + 1, IF e.res = "nil" THEN [s EXCEPT !.acc = @ \cup {e.t}, !.inprog = @ \ {e.t}] ELSE [s EXCEPT !.rej = @ \cup {e.t}, !.inprog = @ \ {e.t}])
     [] e.e = "task.start" ->
          IF On({"C06"}) /\ (e.t \notin s.begun) THEN Bad(k, "C06: a task was started that was never pushed")
          ELSE IF On({"C06"}) /\ (e.t \in s.started) THEN Bad(k, "C06: a task was started twice")
          ELSE IF On({"C06"}) /\ (e.t \in s.rej) THEN Bad(k, "C06: a task whose PushTask returned an error was started")
          ELSE IF On({"C08"}) /\ (Cardinality(s.open) >= c.n) THEN Bad(k, "C08: more than laneSize tasks executing at once")
          ELSE IF On({"C07"}) /\ (s.we) THEN Bad(k, "C07: a task was started after Wait had returned")
-         ELSE Fold(c, k + 1, [s EXCEPT !.started = @ \cup {e.t}, !.open = @ \cup {e.t}])
+         ELSE Fold(c, k + 1, [s EXCEPT !.started = @ \cup {e.t}, !.open = @ \cup {e.t},
+                                      !.sawfull = IF Cardinality(s.open) + 1 >= c.n THEN @ \cup s.inprog ELSE @])
     [] e.e = "task.end" -> Fold(c, k + 1, [s EXCEPT !.open = @ \ {e.t}])
     [] e.e = "task.panic" -> Fold(c, k + 1, [s EXCEPT !.open = @ \ {e.t}, !.raised = @ \cup {e.v}])
-    [] e.e = "cancel.begin" -> Fold(c, k + 1, [s EXCEPT !.cb = TRUE])
+    [] e.e = "cancel.begin" -> Fold(c, k + 1, [s EXCEPT !.cb = TRUE, !.sawfull = @ \cup s.inprog])
     [] e.e = "cancel.end" -> Fold(c, k + 1, [s EXCEPT !.ce = TRUE])
     [] e.e = "wait.begin" -> Fold(c, k + 1, [s EXCEPT !.wb = TRUE])
     [] e.e = "wait.end" ->
